@@ -11,6 +11,7 @@ import (
 	"strings"
 	"testing"
 
+	"github.com/remieven/ysgo"
 	"pgregory.net/rapid"
 )
 
@@ -42,55 +43,121 @@ func sameCounts(a, b map[string]int) bool {
 	return true
 }
 
-func compareVisits(c flowCase) (Verdict, *interp) {
+// c11Restore: after some elements a hand-made snapshot (any node, any visit counts, the current variables) is restored.
+type c11Restore struct {
+	After  int            `json:"after"`
+	Node   string         `json:"node"`
+	Visits map[string]int `json:"visits"`
+}
+
+type c11Case struct {
+	flowCase
+	Restore *c11Restore `json:"restore,omitempty"`
+}
+
+func compareVisits(c flowCase) (Verdict, *interp) { return compareVisitsRestore(c11Case{flowCase: c}) }
+
+func compareVisitsRestore(c c11Case) (Verdict, *interp) {
 	srcs := renderCanonical(c.Script)
-	m := newInterp(c.Script, c.Vars, c.Choices, flowMaxEv)
+	script := strings.Join(srcs, "\n-- next reader --\n")
+	h, err := newHost(srcs, "abc", c.Vars)
+	if err != nil {
+		return failf("generated script does not load: %v\n%s", err, script), nil
+	}
+	limit := flowMaxEv
+	if c.Restore != nil {
+		limit = max(1, min(c.Restore.After, flowMaxEv))
+	}
+	m := newInterp(c.Script, c.Vars, c.Choices, limit)
 	m.run()
 	if m.diverged {
 		return Verdict{Discard: "script runs more than 300 statements without yielding"}, m
 	}
-	h, err := newHost(srcs, "abc", c.Vars)
-	if err != nil {
-		return failf("generated script does not load: %v\n%s", err, strings.Join(srcs, "\n")), m
-	}
-	script := strings.Join(srcs, "\n-- next reader --\n")
-	nchoice := 0
 	prev := map[string]int{}
-	for i := 0; i < len(m.trace); i++ {
-		arg := 0
-		if h.lastOpt > 0 {
-			if len(c.Choices) > 0 {
-				arg = c.Choices[nchoice%len(c.Choices)]
+	phase := func(m *interp, what string) *Verdict {
+		nchoice := 0
+		h.lastOpt = 0
+		for i := 0; i < len(m.trace); i++ {
+			arg := 0
+			if h.lastOpt > 0 {
+				if len(c.Choices) > 0 {
+					arg = c.Choices[nchoice%len(c.Choices)]
+				}
+				nchoice++
+				arg = ((arg % h.lastOpt) + h.lastOpt) % h.lastOpt
 			}
-			nchoice++
-			arg = ((arg % h.lastOpt) + h.lastOpt) % h.lastOpt
-		}
-		ev := h.step(arg)
-		if ev.K == "panic" {
-			return failf("Next panicked at element %d: %s\nscript:\n%s", i, ev.Text, script), m
-		}
-		if !sameEv(m.trace[i], ev) {
-			return failf("element %d (rendered visited/visited_count values included) differs:\n  want %s\n  got  %s\nscript:\n%s\nchoices %v\nexpected visit counts at that point: %s",
-				i, m.trace[i], ev, script, c.Choices, showCounts(m.visitLog[i])), m
-		}
-		got := map[string]int{}
-		for k, v := range h.dr.Snapshot().VisitedNodes {
-			got[k] = v
-		}
-		if !sameCounts(got, m.visitLog[i]) {
-			return failf("after element %d Snapshot().VisitedNodes = %s, want %s\nscript:\n%s\nchoices %v", i, showCounts(got), showCounts(m.visitLog[i]), script, c.Choices), m
-		}
-		for k, v := range prev {
-			if got[k] < v {
-				return failf("visit count of %s decreased from %d to %d at element %d\nscript:\n%s", k, v, got[k], i, script), m
+			ev := h.step(arg)
+			if ev.K == "panic" {
+				v := failf("Next panicked at element %d%s: %s\nscript:\n%s", i, what, ev.Text, script)
+				return &v
+			}
+			if !sameEv(m.trace[i], ev) {
+				v := failf("element %d%s (rendered visited/visited_count values included) differs:\n  want %s\n  got  %s\nscript:\n%s\nchoices %v\nexpected visit counts at that point: %s",
+					i, what, m.trace[i], ev, script, c.Choices, showCounts(m.visitLog[i]))
+				return &v
+			}
+			got := map[string]int{}
+			for k, v := range h.dr.Snapshot().VisitedNodes {
+				got[k] = v
+			}
+			if !sameCounts(got, m.visitLog[i]) {
+				v := failf("after element %d%s Snapshot().VisitedNodes = %s, want %s\nscript:\n%s\nchoices %v", i, what, showCounts(got), showCounts(m.visitLog[i]), script, c.Choices)
+				return &v
+			}
+			for k, v := range prev {
+				if got[k] < v {
+					f := failf("visit count of %s decreased from %d to %d at element %d%s\nscript:\n%s", k, v, got[k], i, what, script)
+					return &f
+				}
+			}
+			prev = got
+			if ev.K == "end" {
+				break
 			}
 		}
-		prev = got
-		if ev.K == "end" {
-			break
+		return nil
+	}
+	if v := phase(m, ""); v != nil {
+		return *v, m
+	}
+	if c.Restore == nil {
+		return Verdict{}, m
+	}
+	// restore a hand-made snapshot: counts (explicit zeros included) and node are arbitrary, variables are the current ones
+	node := m.findNode(c.Restore.Node)
+	if node == nil {
+		return Verdict{Discard: "restore target is not a node"}, m
+	}
+	visits := map[string]int{}
+	for k, v := range c.Restore.Visits {
+		visits[k] = v
+	}
+	h.storer.mute = true
+	snap := &ysgo.Snapshot{CurrentNode: c.Restore.Node, VisitedNodes: visits, Variables: h.storer.GetValues()}
+	h.storer.mute = false
+	if err := h.dr.RestoreAt(snap); err != nil {
+		return failf("RestoreAt failed: %v\nscript:\n%s", err, script), m
+	}
+	m2 := newInterp(c.Script, h.finalStore(), c.Choices, flowMaxEv)
+	m2.startAt = node
+	for k, v := range c.Restore.Visits {
+		if v != 0 {
+			m2.visits[k] = v
 		}
 	}
-	return Verdict{}, m
+	m2.run()
+	if m2.diverged {
+		return Verdict{Discard: "script runs more than 300 statements without yielding"}, m
+	}
+	h.trace = nil
+	prev = map[string]int{}
+	what := fmt.Sprintf(" after restoring {node %s, visits %v}", c.Restore.Node, c.Restore.Visits)
+	if v := phase(m2, what); v != nil {
+		return *v, m
+	}
+	m2.stats.jumps += m.stats.jumps
+	m2.restored = true
+	return Verdict{}, m2
 }
 
 func classifyVisits(c flowCase, m *interp) Verdict {
@@ -118,12 +185,16 @@ func classifyVisits(c flowCase, m *interp) Verdict {
 	return Verdict{NonTrivial: m.stats.jumps >= 3 && (maxCount >= 2 || untrackedLeft), Classes: cls}
 }
 
-func runC11(c flowCase) Verdict {
-	v, m := compareVisits(c)
+func runC11(c c11Case) Verdict {
+	v, m := compareVisitsRestore(c)
 	if v.Fail != "" || v.Discard != "" {
 		return v
 	}
-	return classifyVisits(c, m)
+	cv := classifyVisits(c.flowCase, m)
+	if m.restored {
+		cv.Classes = append(cv.Classes, "restored-hand-made-snapshot")
+	}
+	return cv
 }
 
 var visitScriptOpts = scriptOpts{maxNodes: 5, maxDepth: 3, maxBody: 3, tracking: true, visitText: true, noCommands: true, endWithJump: 4,
@@ -139,14 +210,31 @@ var visitScriptOpts = scriptOpts{maxNodes: 5, maxDepth: 3, maxBody: 3, tracking:
 		return nil
 	}}
 
-var c11Visits = Register(Prop[flowCase]{
+var c11Visits = Register(Prop[c11Case]{
 	ID: "C11", Name: "visits",
-	Gen: func(t *rapid.T) flowCase {
-		c := genFlowCase(t, visitScriptOpts)
+	Gen: func(t *rapid.T) c11Case {
+		c := c11Case{flowCase: genFlowCase(t, visitScriptOpts)}
 		c.Junk = nil
+		if rapid.Bool().Draw(t, "restore") {
+			r := &c11Restore{After: rapid.IntRange(1, 12).Draw(t, "after"), Visits: map[string]int{}}
+			nodes := c.Script.allNodes()
+			r.Node = nodes[rapid.IntRange(0, len(nodes)-1).Draw(t, "node")].Title
+			for _, n := range nodes {
+				if rapid.Bool().Draw(t, "has") {
+					r.Visits[n.Title] = rapid.SampledFrom([]int{0, 0, 1, 2, 5}).Draw(t, "count")
+				}
+			}
+			if rapid.IntRange(0, 3).Draw(t, "nonnode") == 0 {
+				r.Visits["Elsewhere"] = 0
+			}
+			c.Restore = r
+		}
 		return c
 	},
-	Run: runC11, Render: renderFlow,
+	Run: runC11,
+	Render: func(c c11Case) any {
+		return map[string]any{"files": renderCanonical(c.Script), "choices": c.Choices, "restore": c.Restore}
+	},
 })
 
 func TestC11Visits(t *testing.T) { Check(t, c11Visits) }
@@ -218,9 +306,10 @@ func runC12(c c12Case) Verdict {
 		return failf("generated script does not load: %v", err)
 	}
 	script := strings.Join(srcs, "\n-- next reader --\n")
+	// the runner is driven until it reports the end itself; whether it got there the right way is C01's business
 	h.drive(c.Choices, nil, flowMaxEv, true)
-	if d := diffTraces(m.trace, h.trace); d != "" {
-		return Verdict{Discard: "flow differs before the end (C01's business)"}
+	if n := len(h.trace); n == 0 || h.trace[n-1].K != "end" {
+		return Verdict{Discard: "the runner reports no end within the element limit (C01/C06's business)"}
 	}
 	writes, fns, cmds := len(h.storer.writes()), len(h.fnLog), len(h.cmdLog)
 	store := h.finalStore()
